@@ -65,14 +65,18 @@ def showRErr : RErr → String
 
 def mark (same : Bool) (s : String) : String := if same then s else s ++ " MODEL-ORDER-DEPENDENT"
 
-def step (st : St) (l : String) : St × String :=
-  match words l with
+def step1 (st : St) (ws : List String) : St × String :=
+  match ws with
   | "case" :: _ => (st, "ok")
   | "concurrent" :: _ => (st, "ok")
+  | ["newhttp", f] =>
+    let file := unhex f
+    ({ file := file, size := file.length, rc := State.empty }, s!"ok size={file.length}")
   | ["new", f] => let file := unhex f; ({ file := file, size := file.length, rc := State.empty }, "ok")
   | ["get", a, b, fm, cm] =>
     let start := a.toInt!; let ln := b.toInt!
-    let f := parseFetch st.file start ln fm
+    -- the fetch outcome is only consulted for a valid range (never build a buffer for a refused one)
+    let f := if invalidB start (wrap64 (start + ln)) st.size then ⟨0, true, []⟩ else parseFetch st.file start ln fm
     let ctx := parseCtx cm
     let r1 := getRange [] [] ctx ctx st.size st.rc start ln f
     let ro := revOrder st.rc
@@ -109,6 +113,11 @@ def step (st : St) (l : String) : St × String :=
       | .panic => "panic"
     ({ st with rc := r1.1 }, mark (r1.2 == r2.2 && canon r1.1 == canon r2.1) s)
   | _ => (st, "bad-op")
+
+def step (st : St) (l : String) : St × String :=
+  match words l with
+  | "peek" :: rest => (st, (step1 st rest).2)      -- answer of the op, state restored
+  | ws => step1 st ws
 
 def run (lines : Array String) : IO Unit := do
   let out ← IO.getStdout
